@@ -88,14 +88,26 @@ Proof. exact nozero_repaired_keeps_exponent. Qed.
 Print Assumptions C02_nozero_repaired_keeps_exponent.
 
 (* ---- 3. round trip through the tokener model (TokModel.parse_ex_cstr) *)
-(* proved: every flag word without COLOR, every scalar tree other than a double — all int64, all uint64
-   (a uint64 <= INT64_MAX comes back as an int64 node, equal), all byte strings incl. NUL/control/non-UTF-8.
-   NOT proved: doubles and containers ([roundtrip_statement] is the full statement); they are covered by
-   the computed example below and by the differential correspondence stream of ./check C02 *)
-Theorem C02_roundtrip_scalars_partial : forall fmt17 strtod fl v,
-  color fl = false -> scalar_ok v -> roundtrip_ok fmt17 strtod fl v.
+(* proved: every flag word without COLOR, every scalar tree ([scalar_ok]): all int64, all uint64 (a uint64 <=
+   INT64_MAX comes back as an int64 node, equal), all byte strings incl. NUL/control/non-UTF-8, all finite
+   doubles (the strtod oracle is assumed to read the emitted token back as the double; the NOZERO guard as
+   above) and retained texts with a fraction or exponent: json-c re-parses its own output, the result is
+   json_object_equal to the original and serializes to the same text.
+   NOT proved: containers ([roundtrip_statement] is the full statement); they are covered by the computed
+   example below and by the differential correspondence stream of ./check C02 *)
+Theorem C02_roundtrip_scalars_partial : forall fmt17 strtod, fmt17_ok fmt17 -> forall fl v,
+  color fl = false -> scalar_ok fmt17 strtod fl v -> roundtrip_ok fmt17 strtod fl v.
 Proof. exact roundtrip_scalars_partial. Qed.
 Print Assumptions C02_roundtrip_scalars_partial.
+
+(* the tokener model on ANY RFC 8259 number token with a fraction or an exponent: a double node holding
+   strtod's value and the token as retained text *)
+Theorem C02_parse_num_token : forall strtod n, num_ok n = true -> (n_frac n <> None \/ n_exp n <> None) ->
+  exists t', TokModel.parse_ex_cstr strtod RT.T0 (render_num n) =
+             TokModel.PR t' (Some (JDouble (strtod (render_num n)) (Some (render_num n)))) /\
+             TokModel.err t' = TokModel.TE_success.
+Proof. exact RT2.parse_num_token. Qed.
+Print Assumptions C02_parse_num_token.
 
 (* non-vacuity / end to end inside Coq: a nested tree with every node type, strings with '/', quote,
    backslash, NUL, 0x1f and UTF-8, doubles 1.5 1.0 -0.0 0.1 1e+20 1.5e+20, empty containers, under the
